@@ -66,12 +66,11 @@ def queries(tier, kfs):
     else:
         for n in (3, 4, 5, 6):
             for looped in (0, 1):
-                for cache in (1, 0):
+                for cache in ((1, 0) if n == 4 else (1,)):
                     sm = 0 if looped else (1 | 1 << (n - 1))
-                    for bl in bl_sets(n, sm, tier)[:4]:
-                        for mk in masks(n, tier)[:3]:
-                            if (bl + (mk or 0) + cache + n) % 2 == 0 or mk is None:
-                                prof.append((n, looped, cache, bl, mk, '3.0' if (bl + (mk or 0)) % 2 else '0.7'))
+                    for bl in bl_sets(n, sm, tier)[:3]:
+                        for mk in masks(n, tier)[:2]:
+                            prof.append((n, looped, cache, bl, mk, '3.0' if (bl + (mk or 0)) % 2 else '0.7'))
     prof = [p + (0,) for p in prof]
     # apply_par path (blocks executed one after the other): must equal the sequential semantics
     prof += [(4, 0, 1, 0b1001, None, '3.0', 2), (4, 0, 1, 0b0100, 0b0010, '3.0', 3), (3, 0, 1, 0, None, '3.0', 2), (4, 1, 1, 0b0001, 0b0100, '3.0', 4)]
@@ -89,9 +88,8 @@ def queries(tier, kfs):
     # table grids dumped from the real raster / mesh classes
     tabs = ['raster_rook_2x2_fixed', 'raster_rook_2x3_hloop', 'raster_queen_2x2_fixed', 'mesh_quad4']
     if not quick:
-        tabs += ['raster_queen_2x3_fixed', 'raster_bishop_2x3_fixed', 'raster_rook_3x3_fixed', 'raster_queen_3x3_fixed', 'raster_bishop_3x3_fixed', 'mesh_fan5',
-                 'raster_rook_3x3_bloop', 'raster_rook_3x2_vloop', 'raster_queen_3x3_bloop', 'raster_queen_2x2_bloop', 'raster_bishop_3x3_hloop',
-                 'raster_rook_2x4_fixed', 'raster_queen_3x4_fixed', 'mesh_strip6', 'mesh_quad4', 'raster_rook_3x4_hloop']
+        tabs += ['raster_queen_2x3_fixed', 'raster_bishop_2x3_fixed', 'raster_rook_3x3_fixed', 'raster_bishop_3x3_fixed', 'mesh_fan5',
+                 'raster_rook_3x3_bloop', 'raster_rook_3x2_vloop', 'raster_queen_2x2_bloop', 'raster_rook_2x4_fixed', 'mesh_strip6']
     for t in tabs:
         n, d = table_info(t)
         sm = status_mask(t)
@@ -104,6 +102,20 @@ def queries(tier, kfs):
             ud = dict(FSV_GRID=1, FSV_N=n, FSV_D=d, FSV_CACHE=1)
             add('%s.bl%x.m%s.t%d' % (t, bl, 'x' if mk is None else '%x' % mk, thr), ud, hd, n * (d + 1) + 3,
                 dict(grid='table:' + t, N=n, D=d, BL=bl, mask=mk, threads=thr), timeout=900 if quick else 3600)
+    if not quick:
+        # larger tables, one query per node (cone of influence: at most D slope divisions per query)
+        for t, cfgs in (('raster_queen_3x3_fixed', 1), ('raster_rook_3x4_hloop', 2), ('raster_bishop_3x3_hloop', 1)):
+            n, d = table_info(t)
+            sm = status_mask(t)
+            for bl, mk, thr in ((0, None, 0), (sm, 1 << (n // 2), 2))[:cfgs]:
+                for node in range(n):
+                    if (bl >> node) & 1 or (mk is not None and (mk >> node) & 1):
+                        continue
+                    hd = dict(N=n, D=d, GRID=1, BLMASK=bl, USE_MASK=0 if mk is None else 1, TABLE='"%s.h"' % t, THREADS=thr, ONLY_NODE=node)
+                    if mk is not None:
+                        hd['MASKBITS'] = mk
+                    add('%s.bl%x.m%s.t%d.node%d' % (t, bl, 'x' if mk is None else '%x' % mk, thr, node), dict(FSV_GRID=1, FSV_N=n, FSV_D=d, FSV_CACHE=1), hd,
+                        n * (d + 1) + 3, dict(grid='table:' + t, N=n, D=d, BL=bl, mask=mk, threads=thr, node=node), timeout=7200)
     if quick:
         # the every-change tier keeps one query per kind of configuration (about half); the rest runs in the thorough tier
         keep = ('lemma', 'profile3.c1.bl5.mx', 'profile3L.c1.bl0.m4', 'profile4.c1.bl9.mx', 'profile4.c1.bl0.m8', 'profile4L.c1.bl0.mx', 'profile4.c0', 'profile4L.c0',
